@@ -707,6 +707,11 @@ var c13DeanchorDocs = []string{
 	"top: &t\n  inner: &i {p: q}\n  again: *i\nuse: *t\nuse2: {<<: *t, extra: 1}\n",
 	"d: &d {x: 1, y: 2}\nm:\n  y: own\n  <<: *d\n  z: 3\n",
 	"e: &e {}\nm: {<<: *e, a: 1}\nl: &l []\nn: *l\n",
+	// duplicated keys: kept where they stand, but a merge copies the first value of a name only
+	"k: 1\nk: 2\nk: 3\n",
+	"a: &x {k: 1, k: 2}\nb: {<<: *x}\n",
+	"a: &x {j: 9, j: 8}\nb: {j: 1, <<: *x, j: 2, m: 0, m: 1}\n",
+	"a: &x {j: 9, n: 7, j: 8}\nb: {<<: [*x, {n: 1, n: 2, o: 3}], m: 0, m: 1}\n",
 }
 
 func genAnchorDoc(g *Rng) string {
@@ -743,6 +748,7 @@ func genAnchorDoc(g *Rng) string {
 			n := 1 + g.Intn(3)
 			var es []string
 			usedMerge := false
+			var keys []string
 			for i := 0; i < n; i++ {
 				if !usedMerge && len(closed) > 0 && g.Chance(30) {
 					usedMerge = true
@@ -760,7 +766,12 @@ func genAnchorDoc(g *Rng) string {
 					}
 					continue
 				}
-				es = append(es, g.Pick([]string{"a", "b", "c", "x"})+fmt.Sprint(i)+": "+gen(depth-1, inMerge))
+				key := g.Pick([]string{"a", "b", "c", "x"}) + fmt.Sprint(i)
+				if len(keys) > 0 && g.Chance(12) {
+					key = g.Pick(keys) // a duplicated key: mergeAll copies the FIRST value of a name only
+				}
+				keys = append(keys, key)
+				es = append(es, key+": "+gen(depth-1, inMerge))
 			}
 			if anchor != "" {
 				closed = append(closed, strings.TrimSpace(anchor[1:]))
@@ -852,9 +863,21 @@ func deanchorProbe(doc string) (finished bool, output string) {
 
 func deanchorCases(r *Run, rng *Rng, n int) {
 	// the known non-terminating shape, in a child process
-	{
-		doc := "k1: &p {b0: {<<: *p}}\n"
-		fin, out := deanchorProbe(doc)
+	// (started now, judged when the other cases are done: the probe waits on a clock)
+	probeDoc := "k1: &p {b0: {<<: *p}}\n"
+	type probeRes struct {
+		fin bool
+		out string
+	}
+	probeCh := make(chan probeRes, 1)
+	go func() {
+		fin, out := deanchorProbe(probeDoc)
+		probeCh <- probeRes{fin, out}
+	}()
+	defer func() {
+		doc := probeDoc
+		pr := <-probeCh
+		fin, out := pr.fin, pr.out
 		r.AddEval("deanchor-probe", false)
 		if !fin || strings.Contains(out, "fatal error") || strings.Contains(out, "out of memory") {
 			r.Violation(OracleViolation{Law: "terminates", Class: "C13/deanchor-merge-of-open-anchor", Detail: "DeAnchor does not return (memory grows without bound) on a merge key naming an enclosing anchor: " + doc,
@@ -863,7 +886,7 @@ func deanchorCases(r *Run, rng *Rng, n int) {
 			r.Violation(OracleViolation{Law: "anchors_expanded", Class: "C13/deanchor-merge-of-open-anchor", Detail: "DeAnchor accepted a merge key naming an enclosing anchor: " + out,
 				Replay: map[string]string{"kind": "deanchor-probe", "s": doc}})
 		}
-	}
+	}()
 	one := func(s string) {
 		orig, err := kyaml.Parse(s)
 		if err != nil {
